@@ -25,6 +25,7 @@ func (c *ctx) modelProfile() {
 	p.ExprDepth = 1 + c.n(4)
 	p.Functions = 3 + c.n(8)
 	p.FilesPer = 1 + c.n(3)
+	p.ManyBlocks = c.chance(0.15)
 	c.makeWorld(p)
 	for _, ps := range c.sc.World.Paths {
 		if len(ps.Validators) == 0 {
@@ -69,6 +70,7 @@ func genC11(c *ctx) {
 	p.ExprDepth = 2 + c.n(3)
 	p.ClonePath = c.chance(0.5)
 	p.SiblingLang = c.chance(0.4)
+	p.Builtins = c.chance(0.3)
 	c.makeWorld(p)
 	max := 60
 	if c.thorough() {
